@@ -73,10 +73,18 @@ def _rot(pts, c, kind):
     return out
 
 
-def _density(spec, pts, c):
-    """spec = list of [kind, coeff, alpha]; kind 's' or a p-type axis 'z','x','y','g' (generic direction)."""
+def _centre_of(c, term):
+    """Atomic runs: one centre.  Molecular runs: `c` is the (K, 3) array of nuclei and a term carries its atom index."""
+    c = np.asarray(c, dtype=float)
+    return c if c.ndim == 1 else c[term[3] if len(term) > 3 else 0]
+
+
+def _density(spec, pts, c0):
+    """spec = list of [kind, coeff, alpha(, atom index)]; kind 's' or a p-type axis 'z','x','y','g' (generic direction)."""
     out = np.zeros(len(pts))
-    for kind, co, a in spec:
+    for term in spec:
+        kind, co, a = term[:3]
+        c = _centre_of(c0, term)
         if kind == "s":
             out = out + co * _rho_s(pts, c, a)
         else:
@@ -84,9 +92,11 @@ def _density(spec, pts, c):
     return out
 
 
-def _potential(spec, pts, c):
+def _potential(spec, pts, c0):
     out = np.zeros(len(pts))
-    for kind, co, a in spec:
+    for term in spec:
+        kind, co, a = term[:3]
+        c = _centre_of(c0, term)
         if kind == "s":
             out = out + co * _v_s(pts, c, a)
         else:
@@ -94,8 +104,20 @@ def _potential(spec, pts, c):
     return out
 
 
+MOL_ACC_BOUND = 1.0e-2  # multi-centre molecular grids (40-50 radial nodes, degree 11-15 per atom): the test-suite's own level; measured <= 1.5e-3
+MOL_SPREAD_TOL_FACTOR = 0.5  # many tiny high-l channels, each refined from its own draw (measured <= 0.02 tol)
+
+
+def _spread_bound(ctx):
+    if "mol" in ctx.spec:
+        return max(SPREAD_BOUND, MOL_SPREAD_TOL_FACTOR * ctx.spec["grid"]["tol"])
+    return max(SPREAD_BOUND, SPREAD_TOL_FACTOR * ctx.spec["grid"]["tol"])
+
+
 def _acc_bound(ctx):
     """Without the extra node at r = 0 the documented accuracy is the test-suite's 1e-2 level (measured up to 2.4e-3)."""
+    if "mol" in ctx.spec:
+        return MOL_ACC_BOUND
     if (ctx.spec["grid"].get("opts") or {}).get("include_origin") is False:
         return 4 * ACC_BOUND
     return ACC_BOUND
@@ -211,11 +233,111 @@ def _setup(ctx, state):
     state["bits"] = {}
 
 
+def _setup_mol(ctx, state):
+    """Molecular runs: ONE shared multi-centre MolGrid (store=True; every atom has its own radial size, degree and rotation)
+    and a second MolGrid object built from the same atoms listed in the opposite order."""
+    from grid.atomgrid import AtomGrid
+    from grid.becke import BeckeWeights
+    from grid.molgrid import MolGrid
+    from grid.onedgrid import GaussLegendre
+    from grid.rtransform import BeckeRTransform, InverseRTransform
+
+    m = ctx.spec["mol"]
+    tf = BeckeRTransform(m["rmin"], m["R"])
+    cen = np.array([a["center"] for a in m["atoms"]], dtype=float)
+
+    def build(order):
+        ags = [AtomGrid(tf.transform_1d_grid(GaussLegendre(m["atoms"][i]["nr"])), degrees=[m["atoms"][i]["deg"]], center=cen[i].copy(), rotate=m["atoms"][i]["rotate"]) for i in order]
+        return MolGrid(np.array([m["atoms"][i]["z"] for i in order]), ags, BeckeWeights(order=3), store=True)
+
+    n = len(m["atoms"])
+    state["grid"] = build(list(range(n)))
+    state["grid_b"] = build(list(range(n))[::-1])
+    state["tf"] = InverseRTransform(tf)
+    state["center"] = cen
+    mid = cen.mean(axis=0)
+    rr = np.random.RandomState(m["pseed"])
+    state["pts0"] = mid + rr.uniform(-2.5, 2.5, size=(12, 3))
+    u1, u2 = rr.normal(size=3), rr.normal(size=3)
+    state["pts0"][0] = cen[m["pseed"] % n] + 1e-4 * u1 / np.linalg.norm(u1)  # next to one of the nuclei
+    state["pts0"][1] = mid + rr.uniform(25.0, 60.0) * u2 / np.linalg.norm(u2)  # far outside the charge
+    state["pts0"][2] = 0.5 * (cen[0] + cen[-1]) + 0.05 * rr.normal(size=3)  # between two nuclei
+    state["pts"] = state["pts0"].copy()
+    state["pts_b0"] = mid + np.random.RandomState(m["pseed"] + 1).uniform(-2.5, 2.5, size=(12, 3))
+    state["pts_b"] = state["pts_b0"].copy()
+    state["rho"] = {}
+    g = ctx.spec["grid"]
+    state["params"] = {} if g["tol"] == 1e-6 else {"tol": g["tol"], "max_nodes": MAX_NODES}
+    state["params0"] = dict(state["params"])
+    state["results"] = {}
+    state["bits"] = {}
+    ctx.probes.hit("multi-centre-molecular-grid:%d-atoms" % n)
+
+
+def _op_mrobust(ctx, op, state):
+    """solve_poisson_robust on the multi-centre grid: the density is the sum of the fitted core models of all atoms
+    (exact-cancellation case, the residual handed to the numerical solver is zero) or that plus a smooth density."""
+    from grid.robust_poisson import solve_poisson_robust
+
+    _, kind, beh, bseed, o = op
+    m = ctx.spec["mol"]
+    gb = bool(o.get("grid_b"))
+    g, cen, pts = state["grid_b" if gb else "grid"], state["center"], state["pts"]
+    order = list(range(len(m["atoms"])))
+    if gb:
+        order = order[::-1]
+    core = [t + [i] for i in range(len(m["atoms"])) for t in _core_spec(m["atoms"][i]["z"])]
+    smooth = ctx.spec["dens"]["rho1"] if kind == "core+smooth" else []
+    spec = core + smooth
+    rkey = ("mrobust", kind, gb)
+    if rkey not in state["rho"]:
+        state["rho"][rkey] = _density(spec, g.points, cen)
+    rho = state["rho"][rkey]
+    ctx.rng.set_behaviour(beh, bseed)
+    holder = {}
+
+    def call():
+        holder["pot"] = solve_poisson_robust(g, rho, state["tf"], np.array([m["atoms"][i]["z"] for i in order]), cen[order].copy(), ode_params=state["params"])
+        return holder["pot"](pts)
+
+    oc = _outcome(call)
+    sig = f"mol:{kind}"
+    if oc[0] == "raise":
+        ctx.violate("robust-raise", "robust", f"{sig}:{type(oc[1]).__name__}", f"solve_poisson_robust on the molecular grid raised {oc[1]!r}")
+        return
+    v = np.asarray(oc[1], dtype=float)
+    ex = _potential(spec, state["pts0"], cen)
+    scale = max(1.0, float(np.max(np.abs(ex))))
+    err = float(np.max(np.abs(v - ex))) / scale
+    if kind == "core":
+        ctx.stats["core"] = max(ctx.stats["core"], err)
+        if err > CORE_BOUND:
+            ctx.violate("exact-core", "robust", sig, f"robust solver on the sum of the fitted core models of {[a['z'] for a in m['atoms']]} off by {err:.3g} (> {CORE_BOUND}); draw {beh}:{bseed}")
+    elif not np.isfinite(err) or err > _acc_bound(ctx):
+        ctx.violate("accuracy", "robust", sig, f"robust potential on the molecular grid off by {err:.3g}")
+    prev = state["results"].get(("mrobust", kind))
+    if prev is not None:
+        sp = float(np.max(np.abs(prev - v))) / scale
+        ctx.nontrivial = True
+        if sp > _spread_bound(ctx):
+            ctx.violate("draw-dependence", "robust", sig, f"robust potential on the molecular grid differs by {sp:.3g} between draws / atom orders")
+    state["results"][("mrobust", kind)] = v
+    state.setdefault("held_pots", []).append((sig, holder["pot"], v.copy(), spec, 0.0))
+    del state["held_pots"][:-3]
+    if kind == "core+smooth" and "rho1" in state["results"]:
+        d = float(np.max(np.abs(v - _potential(core, state["pts0"], cen) - state["results"]["rho1"]))) / scale
+        ctx.probes.hit("robust-vs-plain-compared")
+        if d > max(10 * LIN_FACTOR * ctx.spec["grid"]["tol"], 2 * _spread_bound(ctx)):
+            ctx.violate("robust-vs-plain", "robust", sig, f"robust(core+smooth) - core_analytic - plain(smooth) = {d:.3g} on the molecular grid")
+    ctx.probes.hit("multi-centre-robust-solve")
+    ctx.log.add(ctx.step, "mrobust", kind, beh, bseed, hash_array(v))
+
+
 def _dens_spec(ctx, which):
     d = ctx.spec["dens"]
     if which == "combo":
         a, b = d["a"], d["b"]
-        return [[k, a * co, al] for k, co, al in d["rho1"]] + [[k, b * co, al] for k, co, al in d["rho2"]]
+        return [[t[0], a * t[1]] + list(t[2:]) for t in d["rho1"]] + [[t[0], b * t[1]] + list(t[2:]) for t in d["rho2"]]
     return d[which]
 
 
@@ -240,7 +362,7 @@ def _op_solve(ctx, op, state):
     if kw.pop("exact_boundary", False) or bscale is not None:
         # the asymptotic value handed in by the caller instead of being integrated: total charge * sqrt(4 pi) - or a
         # multiple of it (0, 1/2, 2): the l = 0 solution then shifts by the constant (b - b0) Y00 / R, R = outermost node
-        q = float(sum(co for kind, co, _ in spec if kind == "s"))
+        q = float(sum(t[1] for t in spec if t[0] == "s"))
         sc = 1.0 if bscale is None else float(bscale)
         kw["boundary"] = float(sc * q * np.sqrt(4 * np.pi))
         if bscale is not None:
@@ -283,13 +405,13 @@ def _op_solve(ctx, op, state):
     acc = float(np.max(np.abs(v - ex))) / scale
     ctx.stats["acc"] = max(ctx.stats["acc"], acc)
     if not np.isfinite(acc) or acc > _acc_bound(ctx):
-        ctx.violate("accuracy", "solve", sig, f"potential of density {which} ({spec}) off by {acc:.3g} (> {ACC_BOUND}) under rng draw {beh}:{bseed}")
+        ctx.violate("accuracy", "solve", sig, f"potential of density {which} ({spec}) off by {acc:.3g} (> {_acc_bound(ctx)}) under rng draw {beh}:{bseed}")
     prev = state["results"].get(which)
     if prev is not None:
         sp = float(np.max(np.abs(prev - v))) / scale
         ctx.stats["spread"] = max(ctx.stats["spread"], sp)
         ctx.nontrivial = True
-        if sp > max(SPREAD_BOUND, SPREAD_TOL_FACTOR * ctx.spec["grid"]["tol"]):
+        if sp > _spread_bound(ctx):
             ctx.violate("draw-dependence", "solve", sig, f"potential of the same density differs by {sp:.3g} between RNG draws / histories (draw {beh}:{bseed})")
     state["results"][which] = v
     rk = (which, beh, bseed, bool(o.get("grid_b")))
@@ -419,7 +541,7 @@ def _op_robust(ctx, op, state):
     bscale = gopts.pop("boundary_scale", None)
     rshift = 0.0
     if bscale is not None and not o.get("split2"):
-        qs = float(sum(co for kind, co, _ in smooth if kind == "s"))
+        qs = float(sum(t[1] for t in smooth if t[0] == "s"))
         kw["boundary"] = float(bscale * qs * np.sqrt(4 * np.pi))
         ag = g.atgrids[0] if hasattr(g, "atgrids") else g
         rad = np.asarray(ag.rgrid.points)
@@ -428,7 +550,7 @@ def _op_robust(ctx, op, state):
     if gopts.pop("exact_boundary", False) and not o.get("split2") and bscale is None:
         # boundary value of the *residual* the robust solver hands to the BVP solver: charge of the smooth part
         # (with split2 the residual is what is left after the NNLS fit, whose charge the caller does not know)
-        kw["boundary"] = float(sum(co for kind, co, _ in smooth if kind == "s") * np.sqrt(4 * np.pi))
+        kw["boundary"] = float(sum(t[1] for t in smooth if t[0] == "s") * np.sqrt(4 * np.pi))
     kw.update(gopts)  # forwarded to solve_poisson_bvp through **bvp_kwargs, same options as the plain solves of the run
     holder = {}
 
@@ -464,7 +586,7 @@ def _op_robust(ctx, op, state):
         ctx.nontrivial = True
         if state.get("robust_faulted") or state.get("restarted"):
             ctx.probes.hit("robust-retry-after-fault-or-restart")
-        if sp > max(SPREAD_BOUND, SPREAD_TOL_FACTOR * ctx.spec["grid"]["tol"]):
+        if sp > _spread_bound(ctx):
             ctx.violate("draw-dependence", "robust", sig, f"robust potential differs by {sp:.3g} between draws / after a faulted first load of the Coulomb table")
     state["results"][rk] = v
     # the potential function handed out now belongs to the caller: it is re-evaluated at the end of the run
@@ -559,7 +681,7 @@ def _op_restart(ctx, op, state):
     ctx.log.add(ctx.step, "restart")
 
 
-OPS = {"solve": _op_solve, "laplacian": _op_laplacian, "ivp": _op_ivp, "robust": _op_robust, "tweak_params": _op_tweak_params, "perturb": _op_perturb, "arm": _op_arm, "heal": _op_heal, "restart": _op_restart}
+OPS = {"mrobust": _op_mrobust, "solve": _op_solve, "laplacian": _op_laplacian, "ivp": _op_ivp, "robust": _op_robust, "tweak_params": _op_tweak_params, "perturb": _op_perturb, "arm": _op_arm, "heal": _op_heal, "restart": _op_restart}
 
 
 class PoissonSeamEngine:
@@ -588,8 +710,8 @@ class PoissonSeamEngine:
 
     def submodes(self, tier):
         if tier == "quick":
-            return [("atomic", 170)]
-        return [("atomic", 12000)]
+            return [("atomic", 170), ("molecular", 32)]
+        return [("atomic", 12000), ("molecular", 1500)]
 
     def determinism_sample(self, tier):
         return 16 if tier == "quick" else 128
@@ -600,7 +722,39 @@ class PoissonSeamEngine:
     def max_reported_classes(self):
         return 3
 
+    def _generate_molecular(self, seed, submode):
+        rng = random.Random(seed)
+        n = rng.choice([2, 2, 3])
+        sep = round(rng.uniform(1.3, 2.0), 2)
+        base = [[0.0, 0.0, 0.0], [0.0, 0.0, sep], [round(rng.uniform(1.1, 1.7), 2), 0.2, round(rng.uniform(-0.4, 0.6), 2)]][:n]
+        shift = [round(rng.uniform(-0.5, 0.5), 2) for _ in range(3)]
+        atoms = [{"z": rng.choice([1, 6, 7, 8]), "center": [round(b + s, 3) for b, s in zip(c, shift)], "nr": rng.choice([40, 46, 50]), "deg": rng.choice([11, 13, 15]),
+                  "rotate": rng.choice([0, 3, 41])} for c in base]
+        tol = rng.choice([1e-4, 1e-5])
+        grid = {"tol": tol, "opts": {"remove_large_pts": rng.choice([50.0, 100.0, 100.0])}, "molecular": True}
+        # (with the default cut-off of 1e6 the radial meshes reach r ~ 3000 and the l > 0 channels of the Becke-partitioned
+        # density do not converge within any reasonable mesh: outside the resolution envelope, the library says so itself)
+        mol = {"atoms": atoms, "rmin": 1e-4, "R": rng.choice([1.2, 1.5]), "pseed": rng.randrange(1000)}
+
+        def dens():
+            k = rng.randint(1, n)
+            return [["s", round(rng.uniform(0.3, 1.5), 3), round(rng.uniform(0.8, 2.0), 3), i] for i in rng.sample(range(n), k)]
+
+        d = {"rho1": dens(), "rho2": dens(), "a": round(rng.uniform(0.3, 2.0), 3), "b": round(rng.uniform(-1.0, 1.5), 3)}
+        ops = []
+        for w in rng.sample(["rho1", "rho2", "combo"], 3)[: rng.choice([1, 3, 3])]:
+            ops.append(["solve", w, rng.choice(BEHAVIOURS), rng.randrange(1000), {"shared_params": True, "grid_b": rng.random() < 0.3}])
+        if rng.random() < 0.6:
+            ops.append(["solve", rng.choice(["rho1", "rho2"]), rng.choice(BEHAVIOURS), rng.randrange(1000), {"shared_params": rng.random() < 0.7, "grid_b": rng.random() < 0.5}])
+        for _ in range(rng.choice([0, 1, 1, 2])):
+            ops.insert(rng.randint(0, len(ops)), ["mrobust", rng.choice(["core", "core", "core+smooth"]), rng.choice(BEHAVIOURS), rng.randrange(1000), {"grid_b": rng.random() < 0.3}])
+        if rng.random() < 0.3:
+            ops.insert(rng.randint(0, len(ops)), ["perturb", rng.randrange(300), rng.choice([None, 3])])
+        return {"engine": self.NAME, "seed": seed, "submode": submode, "grid": grid, "mol": mol, "dens": d, "ops": ops}
+
     def generate(self, seed, submode):
+        if submode == "molecular":
+            return self._generate_molecular(seed, submode)
         rng = random.Random(seed)
         ptype = rng.random() < 0.3
         grid = {
@@ -704,7 +858,7 @@ class PoissonSeamEngine:
 
     def _run(self, ctx, spec, state):
         with StoreSeam(ctx.store), ctx.rng:
-            _setup(ctx, state)
+            (_setup_mol if "mol" in spec else _setup)(ctx, state)
             for op in spec["ops"]:
                 ctx.step += 1
                 OPS[op[0]](ctx, op, state)
